@@ -359,20 +359,19 @@ class YP(object):
         name, args = self._goal_name_args(term)
 
         try:
-            remaining_clauses = self._find_predicates(name, len(args))[:]
+            clauses = self._find_predicates(name, len(args))[:]
         except YPException:
             return # no facts: retract fails
-        i = 0
-        while i < len(remaining_clauses):
-            clause = remaining_clauses[i]
-            match = False
+        # work on the facts as they were when retract was called, but skip those
+        # that have been removed in the meantime
+        for clause in clauses:
             for cut in clause.match(args):
-                match = True
-                del remaining_clauses[i]
+                current = self._predicates_store.get((name, len(args)), [])
+                remaining_clauses = [c for c in current if c is not clause]
+                if len(remaining_clauses) == len(current):
+                    break # removed by someone else while we were suspended
                 self._update_predicate(self.atom(name), len(args), remaining_clauses)
                 yield False
-            if not match:
-                i += 1
 
     def retractall(self, term):
         '''retractall(Term) removes all dynamic facts matching Term, without backtracking over identical clauses.'''
@@ -582,7 +581,9 @@ class YP(object):
             return YPFail()
 
     def _match_all_clauses(self, clauses, args):
-        for clause in clauses:
+        # iterate over a snapshot: facts added or removed while this enumeration is
+        # suspended do not change what it visits
+        for clause in list(clauses):
             for cut in clause.match(args):
                 yield False
                 if cut:
